@@ -1,23 +1,146 @@
 """Stand-ins for compiled-extension objects at the boundary of the units under symbolic execution.
-Every use is listed in the evidence under `stubs` and validated by API replays / witnesses."""
+Every use is listed in the evidence under `stubs` and validated by API replays / witnesses.
+
+An operation a stand-in does not model raises Unsupported; the worker reports the obligation as
+INCONCLUSIVE (never as a violation) so that a harmless refactoring which uses more of the library's API
+cannot raise a false alarm."""
 
 
-class FakeColumn:
-    def __init__(self, vals):
-        self._v = vals
+class Unsupported(AttributeError):
+    """The code under test used an operation that the stand-in does not model."""
+
+
+class Stub:
+    """SimpleNamespace whose unknown attributes raise Unsupported (an AttributeError, so hasattr/getattr
+    with default keep working)."""
+
+    def __init__(self, **kw):
+        self.__dict__.update(kw)
+
+    def __getattr__(self, name):
+        if name.startswith("__"):
+            raise AttributeError(name)
+        raise Unsupported("stand-in %r has no attribute %r" % (type(self).__name__, name))
+
+    def __repr__(self):
+        return "Stub(%s)" % ", ".join("%s=%r" % kv for kv in self.__dict__.items())
+
+    def __eq__(self, other):
+        return isinstance(other, Stub) and self.__dict__ == other.__dict__
+
+
+class PySeries:
+    """list-backed Series with the small element-wise vocabulary used on metadata frames.  Elements may be
+    CrossHair symbolic values: every operation is ordinary Python arithmetic on them."""
+
+    def __init__(self, vals, name=""):
+        self._v = list(vals)
+        self.name = name
+
+    def _bin(self, other, f):
+        if isinstance(other, PySeries):
+            return PySeries([f(a, b) for a, b in zip(self._v, other._v)], self.name)
+        return PySeries([f(a, other) for a in self._v], self.name)
+
+    def __add__(self, o): return self._bin(o, lambda a, b: a + b)
+    def __radd__(self, o): return self._bin(o, lambda a, b: b + a)
+    def __sub__(self, o): return self._bin(o, lambda a, b: a - b)
+    def __rsub__(self, o): return self._bin(o, lambda a, b: b - a)
+    def __mul__(self, o): return self._bin(o, lambda a, b: a * b)
+    def __floordiv__(self, o): return self._bin(o, lambda a, b: a // b)
+    def __mod__(self, o): return self._bin(o, lambda a, b: a % b)
+    def __eq__(self, o): return self._bin(o, lambda a, b: a == b)  # noqa: E704
+    def __ne__(self, o): return self._bin(o, lambda a, b: a != b)
+    def __lt__(self, o): return self._bin(o, lambda a, b: a < b)
+    def __le__(self, o): return self._bin(o, lambda a, b: a <= b)
+    def __gt__(self, o): return self._bin(o, lambda a, b: a > b)
+    def __ge__(self, o): return self._bin(o, lambda a, b: a >= b)
+    def __and__(self, o): return self._bin(o, lambda a, b: a and b)
+    def __or__(self, o): return self._bin(o, lambda a, b: a or b)
+    def __invert__(self): return PySeries([not a for a in self._v], self.name)
+    __hash__ = None
 
     def __getitem__(self, i):
+        if isinstance(i, slice):
+            return PySeries(self._v[i], self.name)
         return self._v[i]
 
     def __len__(self):
         return len(self._v)
 
+    def __iter__(self):
+        return iter(self._v)
+
+    def len(self):
+        return len(self._v)
+
     def to_list(self):
         return list(self._v)
 
+    def any(self):
+        for a in self._v:
+            if a:
+                return True
+        return False
+
+    def all(self):
+        for a in self._v:
+            if not a:
+                return False
+        return True
+
+    def sum(self):
+        t = 0
+        for a in self._v:
+            t = t + a
+        return t
+
+    def min(self):
+        return min(self._v) if self._v else None
+
+    def max(self):
+        return max(self._v) if self._v else None
+
+    def cum_sum(self):
+        out, t = [], 0
+        for a in self._v:
+            t = t + a
+            out.append(t)
+        return PySeries(out, self.name)
+
+    def shift(self, k=1):
+        n = len(self._v)
+        if k >= 0:
+            return PySeries([None] * min(k, n) + self._v[:max(0, n - k)], self.name)
+        return PySeries(self._v[-k:] + [None] * min(-k, n), self.name)
+
+    def alias(self, name):
+        return PySeries(self._v, name)
+
+    def unique(self):
+        out = []
+        for a in self._v:
+            if a not in out:
+                out.append(a)
+        return PySeries(out, self.name)
+
+    def sort(self):
+        return PySeries(sorted(self._v), self.name)
+
+    def cast(self, _t):
+        return self
+
+    def __getattr__(self, name):
+        if name.startswith("__"):
+            raise AttributeError(name)
+        raise Unsupported("PySeries does not model .%s" % name)
+
+
+FakeColumn = PySeries
+
 
 class FakeFrame:
-    """dict-of-lists frame: height, width, shape, columns, row(i[, named]), df[col][i], df[a:b], slice."""
+    """dict-of-lists frame: height, width, shape, columns, row(i[, named]), df[col][i], df[a:b], slice, select."""
 
     def __init__(self, data):
         self._d = {k: list(v) for k, v in data.items()}
@@ -49,33 +172,80 @@ class FakeFrame:
     def rows(self):
         return [self.row(i) for i in range(self.height)]
 
+    def to_dicts(self):
+        return [self.row(i, named=True) for i in range(self.height)]
+
     def __getitem__(self, key):
         if isinstance(key, str):
-            return FakeColumn(self._d[key])
+            return PySeries(self._d[key], key)
         if isinstance(key, slice):
             return FakeFrame({c: v[key] for c, v in self._d.items()})
-        raise TypeError(key)
+        raise Unsupported("FakeFrame[%r]" % (key,))
 
     def slice(self, offset, length=None):
         end = None if length is None else offset + length
         return FakeFrame({c: v[offset:end] for c, v in self._d.items()})
 
+    def head(self, n=5):
+        return self.slice(0, n)
+
     def clone(self):
         return FakeFrame(self._d)
 
     def select(self, cols):
+        if isinstance(cols, str):
+            cols = [cols]
         return FakeFrame({c: self._d[c] for c in cols})
 
+    def get_column(self, c):
+        return PySeries(self._d[c], c)
 
-class MetaFrame:
-    """What pl.DataFrame(rows, ...) is replaced by inside rtflite.pagination.core."""
+    def with_columns(self, *series):
+        d = dict(self._d)
+        for s in series:
+            if isinstance(s, (list, tuple)):
+                for x in s:
+                    d[x.name] = x.to_list()
+            else:
+                d[s.name] = s.to_list()
+        return FakeFrame(d)
+
+    def filter(self, mask):
+        if not isinstance(mask, PySeries):
+            raise Unsupported("FakeFrame.filter with a polars expression")
+        keep = [i for i, m in enumerate(mask) if m]
+        return FakeFrame({c: [v[i] for i in keep] for c, v in self._d.items()})
+
+    def __getattr__(self, name):
+        if name.startswith("__"):
+            raise AttributeError(name)
+        raise Unsupported("FakeFrame does not model .%s" % name)
+
+
+class MetaFrame(FakeFrame):
+    """What pl.DataFrame(rows, ...) is replaced by inside rtflite.pagination.core: built from row dicts."""
 
     def __init__(self, rows=None, schema=None, orient=None):
-        self.rows = [dict(r) for r in (rows or [])]
-        self.height = len(self.rows)
+        rows = [dict(r) for r in (rows or [])]
+        cols = {}
+        for r in rows:
+            for k in r:
+                cols.setdefault(k, [])
+        for r in rows:
+            for k in cols:
+                cols[k].append(r.get(k))
+        if not rows and schema:
+            cols = {k: [] for k in schema}
+        FakeFrame.__init__(self, cols)
+        self._n = len(rows)
 
-    def to_dicts(self):
-        return [dict(r) for r in self.rows]
+    @property
+    def height(self):
+        return self._n if not self._d else FakeFrame.height.fget(self)
+
+    @property
+    def rows(self):
+        return self.to_dicts()
 
 
 class PLStub:
@@ -83,3 +253,7 @@ class PLStub:
     DataFrame = MetaFrame
     Int64 = "Int64"
     Boolean = "Boolean"
+    Utf8 = "Utf8"
+
+    def __getattr__(self, name):
+        raise Unsupported("polars namespace stand-in does not model pl.%s" % name)
